@@ -101,6 +101,20 @@ CLAIMS = {
          "sampled by bit flips, not proved. Trusted: Coq kernel; model tied by recorded-oracle correspondence plus one AST-read "
          "flag (fail-closed); saslprep, repr(bytes) are oracles.",
          "Coq proof over oracle-parametric glue model + recorded-oracle correspondence + RFC verifiers / bit-flip sweep"),
+ "C13": ("5 C13",
+         "Coq theorems over executable models: the RawSocket handshake decision of all four implementation x role functions equals "
+         "the arithmetic table (general lemma + 2^16-case vm_compute sweep over octets 1-2 x reserved variants x configurations), "
+         "attach iff magic 0x7F, supported serializer and zero reserved octets, refusals never escape; segmentation independence "
+         "and round trip of both framing machines (Twisted Int32StringReceiver modelled from its source, asyncio PrefixProtocol) "
+         "and of the whole connection machine; send/receive limits; WebSocket subprotocol = first of the client's list the "
+         "server speaks, same serializer and framing on both ends; error mapping 1002/1011/abort; session told exactly once. "
+         "Serializer ids, BINARY flags, defaults regenerated from the source. Differential run: all 2^16 handshake octet pairs x "
+         "reserved x segmentation x role x framework, framing streams under every split, all four client/server framework "
+         "pairings, corruption at every position, on the real classes.",
+         "Partial: Twisted IntNStringReceiver and the serializers are library code modelled/oracle; the WebSocket engine under the "
+         "WAMP mixins is C01/C02/C05/C07; int() is an oracle. Known finding (thorough tier): 2^24-octet boundary with an asyncio "
+         "receiver.",
+         "Gallina models + induction/invariants + vm_compute sweep; translator; sharded correspondence runs"),
 }
 NOT_YET = {}
 
